@@ -225,6 +225,15 @@ def _atoms_in(v):
 
 
 def r3_4(U, rep):
+  # the helpers are interpreted with `allclose` / `any` kept symbolic; the primitive table is global: restored afterwards
+  saved = {k: avn.JNP[k] for k in ('allclose', 'any')}
+  try:
+    _r3_4(U, rep)
+  finally:
+    avn.JNP.update(saved)
+
+
+def _r3_4(U, rep):
   I = new_interp(U.repo, contracts=False)
   avn.JNP['allclose'] = lambda x, y, **k: uf('allclose', asarr(x), y)
   avn.JNP['any'] = lambda x, **k: uf('any', asarr(x))
